@@ -237,8 +237,12 @@ def canon_impl(res, outtype):
 def project_model(ans, outtype, names):
     """what the model's single (sums, bins-of-ids) answer looks like through the given output type,
     with the ids replaced by the names of the chosen format"""
+    if not isinstance(ans, dict):
+        return ans                      # already projected by the model (Prtpy.Out): a number or a list of sums
     if "error" in ans or "none" in ans or "bad" in ans:
         return ans
+    if "partition" in ans:              # already projected: substitute the names
+        return [[names[i] for i in b] for b in ans["partition"]]
     sums = ans["sums"]
     if not sums and outtype in ("LargestSum", "SmallestSum", "ExtremeSums", "Difference"):
         return {"error": "ValueError"}       # max()/min() of an empty sequence (a cover with no bins)
